@@ -110,13 +110,7 @@ fn settings() -> UserSettings {
 }
 /// test repositories on tmpfs when there is one, and one tokio worker per TestBackend runtime instead of one per core
 /// (a repository is created per searched input; thread start-up dominated the run time)
-pub fn fast_env() {
-    // SAFETY: called at the start of `run`, before any other thread exists
-    unsafe {
-        if std::env::var_os("TOKIO_WORKER_THREADS").is_none() { std::env::set_var("TOKIO_WORKER_THREADS", "1"); }
-        if std::env::var_os("CEX_KEEP_TMPDIR").is_none() && std::path::Path::new("/dev/shm").is_dir() { std::env::set_var("TMPDIR", "/dev/shm"); }
-    }
-}
+pub use crate::util::fast_env;
 
 struct Built { test_repo: TestRepo, settings: UserSettings, repo: Arc<ReadonlyRepo>, commits: Vec<Commit> }
 
@@ -489,7 +483,8 @@ fn c10_run(func: &str, replay: Option<Value>, seed: u64) -> Value {
     // clearing the normalized flag, and the heads {root, x} are committed. Replay:
     //   {"kind":"C10","parents":[[],[0]],"tx":[1],"fork":null,"reload":false,"salt":0,"ops":[["add",0]]}
     // It is searched again when the function under suspicion is add_head / add_heads.
-    let root_add = func.contains("add_head");
+    let root_add = true; // add_head(root) next to another head: fixed in /repo ("fix: repo: ..."), searched by default so a regression is reported
+    let _ = func;
     // exhaustive: every DAG with <= 3 non-root commits (one transaction), every sequence of <= 2 add/remove ops
     let mut cnt = 0;
     for k in 0..=3 { for p in all_dags(k) {
